@@ -72,6 +72,8 @@ def configs(tier):
     out.append(dict(ped="founder2", step="lemma"))
     for cls in ("pedigree-gibbs", "pedigree-mh"):  # PedigreeCallingMCMC.fit -> greedy_caller / mcmc_sampler
         out.append(dict(group="class-wiring", cls=cls, ped="founder2", step="wiring"))
+    for lp in ("pedigree-loop", "pedigree-sweep"):  # mcmc_sampler -> compound_step / pair swap; compound_step -> every (sample, copy) once
+        out.append(dict(group="loop-wiring", loop=lp, ped="founder2", step="wiring"))
     return out
 
 
@@ -213,11 +215,11 @@ def _with(state, t, k, a):
 
 
 def run_config(c, col):
-    if c.get("group") == "class-wiring":
+    if c.get("group") in ("class-wiring", "loop-wiring"):
         from checks import wiring
 
         E.use_summaries(True)
-        return wiring.run_class(c, col)
+        return (wiring.run_class if c["group"] == "class-wiring" else wiring.run_loop)(c, col)
     ped = PEDS[c["ped"]]
     H = Harness(ped)
     prof = E.Profile()
@@ -522,10 +524,10 @@ def _Gnum(ped, state):
 
 
 def replay(v):
-    if v["config"].get("group") == "class-wiring":
+    if v["config"].get("group") in ("class-wiring", "loop-wiring"):
         from checks import wiring
 
-        return wiring.replay_real(v, wiring.run_class)
+        return wiring.replay_real(v, wiring.run_class if v["config"]["group"] == "class-wiring" else wiring.run_loop)
     ped, m, f, err, lam = _concrete(v)
     c = v["config"]
     w = v["witness"]
